@@ -42,7 +42,11 @@ package codec
 //@ func (*encoder).addFloat
 //@   opt strings smt
 //@   requires enc != nil && enc.b != nil
-//@   ensures bare: out(enc) == old(out(enc)) + ftoa(val, bitSize) && enc.b == old(enc.b)
+//@   ensures frame: enc.b == old(enc.b)
+//@   ensures bare: !fIsNaN(val) && !fIsInf(val, 1) && !fIsInf(val, 0 - 1) ==> out(enc) == old(out(enc)) + ftoa(val, bitSize)
+//@   ensures nan: fIsNaN(val) ==> out(enc) == old(out(enc)) + "\"NaN\""
+//@   ensures inf: !fIsNaN(val) && fIsInf(val, 1) ==> out(enc) == old(out(enc)) + "\"Infinity\""
+//@   ensures neginf: !fIsNaN(val) && !fIsInf(val, 1) && fIsInf(val, 0 - 1) ==> out(enc) == old(out(enc)) + "\"-Infinity\""
 
 //@ func (*encoder).openObject
 //@   opt strings smt
@@ -146,8 +150,10 @@ package codec
 //@   assert at return#4 int64: out(enc) == old(out(enc)) + "\"" + itoa(vt) + "\""
 //@   assert at return#5 uint32: out(enc) == old(out(enc)) + itoa(vt)
 //@   assert at return#6 uint64: out(enc) == old(out(enc)) + "\"" + itoa(vt) + "\""
-//@   assert at return#7 float32: out(enc) == old(out(enc)) + ftoa(float64(vt), 32)
-//@   assert at return#8 float64: out(enc) == old(out(enc)) + ftoa(vt, 64)
+//@   assert at return#7 float32: !fIsNaN(float64(vt)) && !fIsInf(float64(vt), 1) && !fIsInf(float64(vt), 0 - 1) ==> out(enc) == old(out(enc)) + ftoa(float64(vt), 32)
+//@   assert at return#7 float32.nonfinite: fIsNaN(float64(vt)) || fIsInf(float64(vt), 1) || fIsInf(float64(vt), 0 - 1) ==> hasPrefix(out(enc), old(out(enc)) + "\"") && hasSuffix(out(enc), "\"")
+//@   assert at return#8 float64: !fIsNaN(vt) && !fIsInf(vt, 1) && !fIsInf(vt, 0 - 1) ==> out(enc) == old(out(enc)) + ftoa(vt, 64)
+//@   assert at return#8 float64.nonfinite: fIsNaN(vt) || fIsInf(vt, 1) || fIsInf(vt, 0 - 1) ==> hasPrefix(out(enc), old(out(enc)) + "\"") && hasSuffix(out(enc), "\"")
 //@   assert at Format#0 timestamp: layoutLossless(arg1)
 //@   ensures append: hasPrefix(out(enc), old(out(enc))) && enc.b == old(enc.b)
 
